@@ -61,7 +61,9 @@ WHEN = {
 def run_kit(kit, tier, seed_, budget, ukey=None, freeze=False, workers=common.NCPU):
     """model check + S->C + C->S + validation for one kit.  Returns (mc, recs, bad)."""
     t = common.Timer()
-    mc = core.model_check(kit, tier, ukey=ukey, workers=workers)
+    # memory: several kits run side by side for the multi-class properties
+    shared = workers < common.NCPU
+    mc = core.model_check(kit, tier, ukey=ukey, workers=workers, heap=("3g", "2g") if shared else ("5g", "3g"))
     log(f"[{kit.name}] TLC: {mc['states']} distinct states, {mc['transitions']} transitions, depth {mc['depth']}, "
         f"{mc['emitted_states']} states emitted ({t():.0f}s)")
     recs, info = core.s2c(kit, mc, budget=budget["s2c"], seed_=seed_, jobs=workers)
@@ -74,7 +76,7 @@ def run_kit(kit, tier, seed_, budget, ukey=None, freeze=False, workers=common.NC
         r["dir"] = "C2S"
     log(f"[{kit.name}] C->S: {budget['histories']} histories, {len(hrecs)} calls ({t():.0f}s)")
     allrecs = recs + hrecs
-    bad = common.validate_records(allrecs, kit.trace_module, jobs=workers)
+    bad = common.validate_records(allrecs, kit.trace_module, jobs=3 if shared else workers)
     log(f"[{kit.name}] trace validation: {len(allrecs)} records, {len(bad)} with verdicts ({t():.0f}s)")
     info["histories"] = budget["histories"]
     info["history_calls"] = len(hrecs)
